@@ -13,6 +13,7 @@ import GwcsModel.Drv.C17
 import GwcsModel.Drv.C18
 import GwcsModel.Drv.C19
 import GwcsModel.Drv.C06
+import GwcsModel.Drv.C04
 open Lean Gwcs
 
 def dispatch (j : Json) : Json :=
@@ -20,6 +21,7 @@ def dispatch (j : Json) : Json :=
   | some "C14" => Gwcs.Drv.C14.handle j
   | some "C08" => if jStr (jFieldD j "op" Json.null) == some "cache" then Gwcs.Drv.C08.handle j else Gwcs.Drv.Pipe.handle j
   | some "C19" => Gwcs.Drv.C19.handle j
+  | some "C04" => Gwcs.Drv.C04.handle j
   | some "C06" => Gwcs.Drv.C06.handle j
   | some "C18" => Gwcs.Drv.C18.handle j
   | some "C17" => Gwcs.Drv.C17.handle j
